@@ -370,18 +370,20 @@ fn main() {
                     samples.push(json!({"seed": seed, "config": rp.config, "steps": rp.steps}));
                 }
                 let before = (st.steps, st.calls, st.mmu_faults, st.trapped, st.deallocs);
+                st.evhash = 0;
                 let v = run_replay(&rp, &mut st);
                 if let Some(f) = logf.as_mut() {
                     // deterministic event summary of the run (for the determinism diff)
                     let _ = writeln!(
                         f,
-                        "{seed} steps={} calls={} mmu={} traps={} deallocs={} distinct={} viol={}",
+                        "{seed} steps={} calls={} mmu={} traps={} deallocs={} distinct={} evhash={:016x} viol={}",
                         st.steps - before.0,
                         st.calls - before.1,
                         st.mmu_faults - before.2,
                         st.trapped - before.3,
                         st.deallocs - before.4,
                         st.distinct.len(),
+                        st.evhash,
                         v.as_ref().map(|v| format!("{}@{}:{}", v.oracle, v.step, v.detail)).unwrap_or_default()
                     );
                 }
